@@ -7,6 +7,12 @@
 (*       not yet in the manager's table and becomes Open + registered by   *)
 (*       OpenAck (Manager.HandleStreamOpenAck);                            *)
 (*   "b" was accepted (Manager.AcceptStream): Open + registered.           *)
+(* The open of "a" is PENDING in the manager's pending-request table,      *)
+(* keyed by its request id, until OpenAck, OpenErr, the open timeout or a  *)
+(* cancellation removes it (`pend`).  Frames, closes and resets can also   *)
+(* arrive for a stream id that is not established at all: target "x" is    *)
+(* such an id, and it is NUMERICALLY EQUAL TO THE REQUEST ID of a's        *)
+(* pending open (request ids and stream ids are both small integers).      *)
 (*                                                                         *)
 (* Threads (each a real goroutine in the replay harness):                  *)
 (*   frame handler  Manager.HandleStreamData(id, flags, data) is TWO steps *)
@@ -37,6 +43,10 @@
 (*   DevWriteAfterHalfClose the write guard ignores the local half-close   *)
 (*   DevHalfCloseReopens   CloseWrite after a remote FIN moves to          *)
 (*                         HalfClosedLocal (undocumented edge)             *)
+(*   DevResetCancelsPending a reset for a stream id that is not            *)
+(*                         established is looked up in the pending table   *)
+(*                         (keyed by REQUEST id): it fails another         *)
+(*                         stream's pending open                           *)
 (* A deviation REPLACES the ideal behaviour at its site, so the relation   *)
 (* with Dev = {d} describes exactly a code base that has defect d.         *)
 (***************************************************************************)
@@ -49,7 +59,9 @@ CONSTANTS MaxFrames,   \* frames handled (all streams together)
 
 Streams == {"a", "b"}
 Other(s) == IF s = "a" THEN "b" ELSE "a"
-DevNames == {"DevFinBeforeData", "DevCloseTearsAll", "DevWriteAfterHalfClose", "DevHalfCloseReopens"}
+Targets == Streams \cup {"x"}   \* "x": an id that is not established, numerically equal to the request id of a's open
+DevNames == {"DevFinBeforeData", "DevCloseTearsAll", "DevWriteAfterHalfClose", "DevHalfCloseReopens",
+             "DevResetCancelsPending"}
 States == {"Opening", "Open", "HalfClosedLocal", "HalfClosedRemote", "Closed"}
 ASSUME Dev \subseteq DevNames
 
@@ -60,6 +72,7 @@ DocEdges == {<<"Opening", "Open">>, <<"Open", "HalfClosedLocal">>, <<"Open", "Ha
 
 VARIABLES st,        \* [Streams -> States]
           reg,       \* [Streams -> BOOLEAN]   in the manager's table
+          pend,      \* BOOLEAN: the open of "a" is in the pending-request table
           buf,       \* [Streams -> Seq(Nat)]  read buffer (chunk numbers)
           lfin,      \* [Streams -> BOOLEAN]   localFinWrite
           rfin,      \* [Streams -> BOOLEAN]   remoteFinWrite (remoteFinCh closed)
@@ -77,7 +90,7 @@ VARIABLES st,        \* [Streams -> States]
                      \*                        although a chunk that arrived before/with the FIN was not delivered
           last       \* observation of the last step (hidden by VIEW)
 
-core == <<st, reg, buf, lfin, rfin, closed, rd, nreads, fh, nframes, nsent>>
+core == <<st, reg, pend, buf, lfin, rfin, closed, rd, nreads, fh, nframes, nsent>>
 ghost == <<arrived, finSeen, delivered, lost>>
 vars == <<core, ghost, last>>
 view == <<core, ghost>>
@@ -90,7 +103,7 @@ FhIdle == [pc |-> "idle", s |-> "-", k |-> 0, fin |-> FALSE]
 
 Init ==
   /\ st = [s \in Streams |-> IF s = "a" THEN "Opening" ELSE "Open"]
-  /\ reg = [s \in Streams |-> s = "b"]
+  /\ reg = [s \in Streams |-> s = "b"] /\ pend = TRUE
   /\ buf = [s \in Streams |-> <<>>]
   /\ lfin = [s \in Streams |-> FALSE] /\ rfin = [s \in Streams |-> FALSE] /\ closed = [s \in Streams |-> FALSE]
   /\ rd = [s \in Streams |-> Idle] /\ nreads = [s \in Streams |-> 0]
@@ -116,21 +129,34 @@ FinRd(s) == IF ~rfin[s] /\ rd[s].pc = "blocked" THEN [rd EXCEPT ![s] = ReadyEOF(
 
 FinFirst == "DevFinBeforeData" \in Dev
 
-(* Manager.HandleStreamOpenAck *)
+(* Manager.HandleStreamOpenAck: the pending open completes; without a pending request the ack is rejected *)
 OpenAck(s) ==
-  /\ st[s] = "Opening" /\ ~reg[s]
-  /\ st' = [st EXCEPT ![s] = "Open"] /\ reg' = [reg EXCEPT ![s] = TRUE]
+  /\ s = "a" /\ st[s] = "Opening" /\ ~reg[s]
+  /\ IF pend
+       THEN /\ st' = [st EXCEPT ![s] = "Open"] /\ reg' = [reg EXCEPT ![s] = TRUE] /\ pend' = FALSE
+            /\ last' = [act |-> "OpenAck", s |-> s, res |-> "ok"]
+       ELSE /\ UNCHANGED <<st, reg, pend>>
+            /\ last' = [act |-> "OpenAck", s |-> s, res |-> "nopending"]
   /\ UNCHANGED <<buf, lfin, rfin, closed, rd, nreads, fh, nframes, nsent, ghost>>
-  /\ last' = [act |-> "OpenAck", s |-> s, res |-> "ok"]
+
+(* the pending open fails: HandleStreamOpenErr ("err"), the open timeout ("timeout"), CancelPendingRequest ("cancel"); *)
+(* the dialer gets that error, the stream is never established                                                       *)
+OpenFail(kind) ==
+  /\ st["a"] = "Opening"
+  /\ pend' = FALSE
+  /\ UNCHANGED <<st, reg, buf, lfin, rfin, closed, rd, nreads, fh, nframes, nsent, ghost>>
+  /\ last' = [act |-> "OpenFail", s |-> "a", kind |-> kind, res |-> IF pend THEN kind ELSE "nopending"]
 
 (* Manager.HandleStreamData up to the scheduling point *)
+Known(s) == s \in Streams /\ reg[s]
 FrameBegin(s, hd, fin) ==
   /\ fh.pc = "idle" /\ nframes < MaxFrames
-  /\ nframes' = nframes + 1
-  /\ IF ~reg[s]
-       THEN /\ UNCHANGED <<st, reg, buf, lfin, rfin, closed, rd, nreads, fh, nsent, ghost>>
+  /\ UNCHANGED pend
+  /\ IF ~Known(s)
+       THEN /\ UNCHANGED <<st, reg, buf, lfin, rfin, closed, rd, nreads, fh, nframes, nsent, ghost>>
             /\ last' = [act |-> "FrameBegin", s |-> s, hd |-> hd, fin |-> fin, res |-> "unknown"]
        ELSE LET k == IF hd THEN nsent[s] + 1 ELSE 0 IN
+            /\ nframes' = nframes + 1
             /\ nsent' = [nsent EXCEPT ![s] = IF hd THEN @ + 1 ELSE @]
             /\ arrived' = IF hd /\ ~finSeen[s] THEN [arrived EXCEPT ![s] = Append(@, k)] ELSE arrived
             /\ finSeen' = [finSeen EXCEPT ![s] = @ \/ fin]
